@@ -43,8 +43,21 @@ class Burst:
     """Runs callables on baton-passing threads under a seeded schedule."""
 
     def __init__(self, rng, max_steps: int = 4000, forced: list[int] | None = None,
-                 crash_at: int | None = None) -> None:
+                 crash_at: int | None = None, strategy: str | None = None) -> None:
         self.rng = rng
+        # "uniform": every step picks uniformly among the runnable threads (many switches; a thread practically
+        # never stalls while another runs a whole request).  "stall": threads run in a seeded priority order until
+        # they block or finish, except that the running thread is demoted at one or two seeded steps - preferably
+        # right after it has committed, rolled back, taken a lock or touched a file - so that "A stops between its
+        # commit and its next step while B runs from start to end" has a fair chance.  Chosen by the seed.
+        if strategy is None:
+            strategy = "stall" if rng.random() < 0.5 else "uniform"
+        self.strategy = strategy
+        self.priority: list[int] = []
+        self.demote_budget = rng.choice([1, 1, 2])
+        self.demote_p = rng.choice([0.0, 0.05, 0.15])
+        self.hot_target = rng.randrange(10)        # the running thread is demoted at its n-th hot point
+        self.hot_seen = 0
         self.crash_at = crash_at           # the thread released at this step (1-based) dies at its seam instead
         self.crashed: set[int] = set()
         self.crash_label: str | None = None
@@ -96,6 +109,30 @@ class Burst:
                 self.current = None
                 self.cv.notify_all()
 
+    def _pick_stall(self, cands: list[int]) -> int:
+        if not self.priority:
+            self.priority = sorted(self.state)
+            self.rng.shuffle(self.priority)
+        top = next(t for t in self.priority if t in cands)
+        if len(cands) > 1 and self.demote_budget > 0 and self.label.get(top) != "start":
+            last = self.schedule[-1] if self.schedule else None
+            # the label a thread is parked at names its *next* step: what it has just done is the label it was
+            # released from last time
+            done = last[1] if last and last[0] == top else ""
+            hot = done in ("commit", "rollback", "lock:acquire") or done.startswith("file:")
+            hit = False
+            if hot:
+                hit = self.hot_seen == self.hot_target
+                self.hot_seen += 1
+            elif self.demote_p:
+                hit = self.rng.random() < self.demote_p
+            if hit:
+                self.demote_budget -= 1
+                self.priority.remove(top)
+                self.priority.append(top)
+                top = next(t for t in self.priority if t in cands)
+        return top
+
     # ------------------------------------------------------------------ scheduler side
     def run(self, fns: list[Callable[[], object]]) -> None:
         global ACTIVE
@@ -133,6 +170,10 @@ class Burst:
                     if self.forced is not None and self.forced:
                         want = self.forced.pop(0)
                         tid = want if want in cands else cands[0]
+                    elif self.forced is not None:
+                        tid = cands[0]
+                    elif self.strategy == "stall":
+                        tid = self._pick_stall(cands)
                     else:
                         tid = cands[self.rng.randrange(len(cands))] if len(cands) > 1 else cands[0]
                     if self.state[tid] == "parked":
